@@ -105,8 +105,24 @@ func callT(t, x int) (r int, pv interface{}) {
 	return
 }
 
-// em returns the exported-mocker handle for target t, looked up afresh (that is the point of the property)
+// kept handles: the object a lookup returned earlier, used again later (also after Cancel/Reset)
+var keptEm = map[int]mocker.ExportedMocker{}
+var useKept bool
+var keptUsed int
+
+// em returns the exported-mocker handle for target t: looked up afresh (that is the point of the property) or,
+// for some instructions, the object an earlier lookup returned
 func em(b *mocker.Builder, t int) mocker.ExportedMocker {
+	if m, ok := keptEm[t]; ok && useKept && t <= 4 {
+		keptUsed++
+		return m
+	}
+	m := emFresh(b, t)
+	keptEm[t] = m
+	return m
+}
+
+func emFresh(b *mocker.Builder, t int) mocker.ExportedMocker {
 	switch t {
 	case 0:
 		return b.Func(fA)
@@ -142,6 +158,8 @@ func runHist(ci interface{}, s *vkit.Stats) error {
 	c := ci.(*histCase)
 	ifv = nil
 	gv = 777
+	keptEm = map[int]mocker.ExportedMocker{}
+	keptUsed = 0
 	b := mocker.Create()
 	other := mocker.Create()
 	defer func() { b.Reset(); other.Reset(); ifv = nil; gv = 777 }()
@@ -228,6 +246,7 @@ func runHist(ci interface{}, s *vkit.Stats) error {
 		x := vkit.Pick(op.I[2], 4)
 		ts := st[t]
 		var pv interface{}
+		useKept = len(op.I) > 3 && vkit.Pick(op.I[3], 3) == 0
 		switch op.K {
 		case "apply":
 			if t == 7 {
@@ -369,6 +388,9 @@ func runHist(ci interface{}, s *vkit.Stats) error {
 			s.Class("target-with->=2-callback/stub-alternations")
 		}
 	}
+	if keptUsed > 0 {
+		s.Class("history-with-instructions-through-kept-handles")
+	}
 	if nt {
 		s.NonTrivial(strings.Join(fp, ""))
 	}
@@ -376,7 +398,7 @@ func runHist(ci interface{}, s *vkit.Stats) error {
 	return nil
 }
 
-var opGen = vkit.OpGen([]string{"apply", "ret", "when", "call", "cancel", "reset", "other"}, []int{5, 5, 3, 6, 2, 1, 1}, 3)
+var opGen = vkit.OpGen([]string{"apply", "ret", "when", "call", "cancel", "reset", "other"}, []int{5, 5, 3, 6, 2, 1, 1}, 4)
 
 func quiet() {
 	if f, err := os.OpenFile(os.DevNull, os.O_WRONLY, 0); err == nil && os.Getenv("VERIF_VERBOSE") == "" {
